@@ -148,7 +148,7 @@ Print Assumptions C01_statement_simulation.
 From Bardolph Require Import Lang.CallValue.
 Theorem C01_value_of_a_builtin_function :
   forall rt mt, bodies_ok rt mt -> forall u f args ps, builtin_params f builtin_table = Some ps ->
-  plain_args mt args ps = true -> use_ok u = true ->
+  plain_args rt mt args ps = true -> use_ok u = true ->
   forall after im ss s sig ss' fuel, routines_loaded rt mt im -> sim ss s ->
   code_at im (m_pc s) (c_stmt rt mt false after (use_stmt u (RCall f args))) ->
   Sem.exec rt mt fuel false ss (use_stmt u (RCall f args)) = ROk sig ss' ->
@@ -208,6 +208,7 @@ Example C01_program_nonvacuous :
             SAssign "who" (RCall "pick" [RLit (LStr "g")]); SPrintln (Some (RVar "who"));
             SPrintln (Some (RExpr (EBin BAdd (ECall "fact" [RLit (LInt 5)]) (ENeg (ECall "round" [RVar "total"])))));
             SPrintf "{} of {total} at {hue}, {}" [RVar "x"; RExpr (EBin BMul (EVar "total") (ELit (LInt 2)))];
+            SPrintln (Some (RCall "sq" [RCall "round" [RVar "total"]])); SCall "down" [RCall "sq" [RLit (LInt 1)]] false;
             SAssign "r" (RCall "round" [RVar "total"]); SPrintln (Some (RCall "floor" [RExpr (EBin BDiv (EVar "total") (ELit (LInt 2)))]));
             SReg R_HUE (RCall "sq" [RVar "total"]); SPrint (Some (RCall "sq" [RExpr (EBin BSub (EVar "total") (ELit (LInt 7)))]));
             SPrintln (Some (RVar "total"))] in
